@@ -22,6 +22,29 @@ PROPS = {
     },
 }
 
+PROPS['C13'] = {
+    'level': 'proof',
+    'technique': 'Lean 4 theorems on an arithmetic model of Prefix/MaxLenPrefix/RouteOrigin/SmallAsnSet (order = compare of one Nat key; '
+                 'set ops by induction) + differential check against the real types on a boundary-dense domain',
+    'claim': 'Lean 4 proofs, for all well-formed prefixes (every address and length), that strict construction accepts exactly in-family '
+             'lengths with zero host bits, relaxed construction clears the host bits, max-length rules hold, covers is range inclusion, '
+             'the order equals comparison of a single natural-number key (hence total, antisymmetric, transitive, consistent with ==, '
+             'more-specific first), route origins compare lexicographically with consistent ==/hash input, and SmallAsnSet construction '
+             'and its four merge iterators equal the mathematical set operations for all lists. The whole FamilyAndLen table is decided by '
+             'the kernel. Text round trip is carried by the correspondence only (std address formatting is not modelled).',
+    'note': 'Bit operations (mask, trailing_zeros, shifts) are rendered as Nat div/mod by powers of two; that rendering, Vec::sort/dedup '
+            '(modelled as insertion sort + adjacent dedup) and std IpAddr Display/FromStr are validated by the differential run only. '
+            'Constants of FamilyAndLen and the presence of dedup() are regenerated from the source on every run.',
+    'shards': {'quick': 4, 'thorough': 16},
+    'budget': {'quick': 600, 'thorough': 7200},
+    'rule': 'constructors over (boundary address domain: single run boundary at every bit position +-1) x lengths 0..255; covers/cmp on '
+            'pairs from a pool biased to nested/adjacent prefixes (thorough: all pairs of a ~480-prefix pool); transitivity triples on the '
+            'implementation; max-len 0..255/absent; origins; all AS sequences of length <=4 (thorough 5) over a 6-value domain incl. 0 and '
+            'u32::MAX with duplicates; all 64x64 subset pairs x 4 set operations; random larger sets.',
+    'trusted_base': ['u128/u8 bit operations rendered in Nat arithmetic (validated by the differential run, not proved)'],
+    'assumptions': ['std::net address text formatting/parsing is exercised, not modelled'],
+}
+
 NOT_APPLICABLE = {
 }
 for _i in range(1, 18):
